@@ -878,7 +878,7 @@ zap_links(vbi_page *pg, int row)
 	vbi_link ld;
 	vbi_char *acp;
 	vbi_bool link[43];
-	int i, j, n, b;
+	int i, j, n, b, n_chars;
 
 	acp = &pg->text[row * EXT_COLUMNS];
 
@@ -894,13 +894,21 @@ zap_links(vbi_page *pg, int row)
 	buffer[j + 1] = ' ';
 	buffer[j + 2] = 0;
 
-	for (i = 0; i < COLUMNS; i += n) { 
+	/* Double width and size characters occupy two columns but only
+	   one place in the buffer: scan the characters in the buffer,
+	   not beyond its end. */
+	n_chars = j;
+
+	for (i = 0; i < n_chars; i += n) { 
 		n = keyword(&ld, buffer, i + 1,
 			pg->pgno, pg->subno, &b);
 
 		for (j = b; j < n; j++)
 			link[i + j] = (ld.type != VBI_LINK_NONE);
 	}
+
+	/* For the right half of a character in the last column. */
+	link[n_chars] = FALSE;
 
 	for (i = j = 0; i < COLUMNS; i++) {
 		acp[i].link = link[j];
